@@ -12,9 +12,21 @@ def main():
         return common.run_check(chk, sys.argv[2:])
     except SystemExit:
         raise
-    except Exception:
+    except Exception as e:
         import traceback
         traceback.print_exc()
+        tb = traceback.extract_tb(sys.exc_info()[2])
+        root = os.path.realpath(common.REPO) + os.sep
+        if any(os.path.realpath(f.filename).startswith(root) for f in tb):
+            # the exception came out of the code under test while harness code (a generator, a probe, a view) was driving it
+            # outside any guarded call: the harness cannot attach to this tree as it did to the tree it was written against.
+            # The tie between model and code is broken — reported as a broken obligation, not as an infrastructure error
+            # (which would hide a changed tree); never seen on the unchanged tree, where every run exercises these paths.
+            path = common.write_replay(pid, "broken", {"property": pid, "kind": "broken-obligation", "case": None,
+                                                       "broken": [["harness", "%s: %s" % (type(e).__name__, str(e)[:300])]],
+                                                       "traceback": traceback.format_exc()[-2000:], "search": {"cases_tried": 0, "found": False}})
+            print("VIOLATION property=%s replay=%s no-failing-input-found" % (pid, path))
+            return 1
         return 2
 
 if __name__ == "__main__":
